@@ -14,7 +14,7 @@ import (
 // operation on API paths, D4 shutdown signal atomic with Bind, D5 Bind/Unbind pairing, D6 no start after close.
 
 func init() {
-	registerEngine("D", []string{"D1", "D2", "D3", "D4", "D5", "D6"}, runEngineD)
+	registerEngine("D", []string{"D1", "D2", "D3", "D4", "D5", "D6", "D7"}, runEngineD)
 }
 
 // d3Exceptions: blocking channel operations on API paths that are safe for a stated reason (checked elsewhere).
@@ -725,6 +725,96 @@ func d2Loops(p *Prog, o *obls, fn *ssa.Function, entry *ssa.Function, isLifecycl
 		}
 		key := fmt.Sprintf("%s:loop@%s", funcKey(fn), loopLabel(p, h))
 		pos := p.instrPos(blocking[0])
+		// D7: a service loop — one that waits in a select with a lifecycle case and other cases — is left only on the
+		// lifecycle signal. If it can also be left elsewhere (an early return on a failed write), the goroutine is gone
+		// while the interceptor is still open: its producers block on their hand-off until Close, and its periodic
+		// work stops.
+		if stoppable {
+			var exits []string
+			nExit := 0
+			for _, in := range blocking {
+				sel, ok := in.(*ssa.Select)
+				if !ok || len(sel.States) < 2 {
+					continue
+				}
+				lifeTargets := map[*ssa.BasicBlock]bool{}
+				for i, st := range sel.States {
+					if st.Dir == types.RecvOnly && isLifecycle(chanIdents(p, st.Chan)) {
+						if t := selectStateTarget(sel, i); t != nil {
+							lifeTargets[t] = true
+						}
+					}
+				}
+				if len(lifeTargets) == 0 {
+					continue
+				}
+				// only the loop this select directly serves: the innermost loop containing it
+				inner := true
+				for h2, b2 := range loops {
+					if h2 != h && b2[sel.Block()] && len(b2) < len(body) {
+						inner = false
+					}
+				}
+				if !inner {
+					continue
+				}
+				for b := range body {
+					for _, sc := range b.Succs {
+						if body[sc] {
+							continue
+						}
+						if _, isPanic := sc.Instrs[len(sc.Instrs)-1].(*ssa.Panic); isPanic {
+							continue // the compiler's "select matched no case" block, or an explicit panic: not a quiet exit
+						}
+						nExit++
+						// the exit is on the lifecycle signal if it lies in the lifecycle case, or leads (through the
+						// rest of the select's dispatch chain, which is outside the loop) only to it
+						var onLife func(x *ssa.BasicBlock, d int) bool
+						onLife = func(x *ssa.BasicBlock, d int) bool {
+							for t := range lifeTargets {
+								if t == x || t.Dominates(x) {
+									return true
+								}
+							}
+							if body[x] || d > 6 || len(x.Succs) == 0 {
+								return false
+							}
+							for _, y := range x.Succs {
+								if _, isPanic := y.Instrs[len(y.Instrs)-1].(*ssa.Panic); isPanic {
+									continue
+								}
+								if !onLife(y, d+1) {
+									return false
+								}
+							}
+							return true
+						}
+						inLife := false
+						for t := range lifeTargets {
+							if t == b || t.Dominates(b) {
+								inLife = true
+							}
+						}
+						if !inLife && !onLife(sc, 0) {
+							pos := sc.Instrs[len(sc.Instrs)-1].Pos()
+							if !pos.IsValid() {
+								pos = b.Instrs[len(b.Instrs)-1].Pos()
+							}
+							exits = append(exits, p.Pos(pos))
+						}
+					}
+				}
+			}
+			if nExit > 0 {
+				k7 := key
+				if len(exits) > 0 {
+					sort.Strings(exits)
+					o.bad("D7", k7, pos, fmt.Sprintf("the service loop of goroutine %s can be left at %s, not on the lifecycle signal: after that nobody serves the loop's channels while the interceptor is still open (producers block until Close, periodic work stops)", funcKey(entry), strings.Join(dedupe(exits), ", ")))
+				} else {
+					o.ok("D7", k7, pos, fmt.Sprintf("the service loop is left only through its lifecycle case (%d exit edge(s))", nExit))
+				}
+			}
+		}
 		if stoppable {
 			o.ok("D2", key, pos, fmt.Sprintf("blocking loop in goroutine %s: %s", funcKey(entry), why))
 		} else {
@@ -752,6 +842,31 @@ func loopLabel(p *Prog, h *ssa.BasicBlock) string {
 
 // selectStateLeaves: the control-flow successor chosen for select state i leaves the loop body (reaches a block
 // outside body without returning to the header first). go/ssa lowers a select to a chain of `index == k` tests.
+// selectStateTarget: the block control reaches when select state i was chosen.
+func selectStateTarget(sel *ssa.Select, i int) *ssa.BasicBlock {
+	if sel.Referrers() == nil {
+		return nil
+	}
+	for _, r := range *sel.Referrers() {
+		ex, ok := r.(*ssa.Extract)
+		if !ok || ex.Index != 0 || ex.Referrers() == nil {
+			continue
+		}
+		for _, r2 := range *ex.Referrers() {
+			bo, ok := r2.(*ssa.BinOp)
+			if !ok || bo.Op != token.EQL || !isConstInt(bo.Y, int64(i)) || bo.Referrers() == nil {
+				continue
+			}
+			for _, r3 := range *bo.Referrers() {
+				if iff, ok := r3.(*ssa.If); ok {
+					return iff.Block().Succs[0]
+				}
+			}
+		}
+	}
+	return nil
+}
+
 func selectStateLeaves(sel *ssa.Select, i int, body map[*ssa.BasicBlock]bool) bool {
 	// find the If testing `extract #0 == i`
 	var idx *ssa.Extract
